@@ -566,7 +566,10 @@ def c14_one(w, inp, c):
                     w.violation('C14:iter-element-not-equal-to-standalone-decoding', inp,
                                 {'code_name': k.co_name, 'firstlineno': k.co_firstlineno, 'nested': x.name,
                                  'error': O.exc_str(e3) if e3 is not None else None})
-    allgot = list(d.all_code_data())
+    allgot, e = try_(lambda: list(d.all_code_data()))
+    if e is not None:
+        w.violation('C14:all_code_data-raises', inp, {'error': O.exc_str(e)})
+        return
     allexp = [CodeData.from_code(k) for k in corpus.all_code(c)]
     if not allgot or ser.s_data(allgot[0]) != ser.s_data(d):
         w.violation('C14:all_code_data-does-not-start-with-self', inp, {})
